@@ -32,6 +32,8 @@ def gen_schedules(n, seed, od, cfg="MiPageGen.cfg", module="MiPageGen", depth=80
 # guards of the step-level trace specification (StepTrace.tla); decisive for the properties that are about the delayed-free protocol
 STEP_GUARDS = {"StepContinuity", "RemoteSequence", "RemoteCas1", "DelayedPushOwn", "RemoteCas3", "CollectTakesAll", "UseDelayedShape",
                "NeverOnlyOnAdoption", "WriteShape", "StoreNotStale", "RepushTaken", "RearmAfterDrain"}
+ABANDON_GUARDS = {"BitContinuity", "MarkWhenUnowned", "MarkNotTwice", "AbandonByOwner", "AdoptOwnId", "AdoptAfterWinning", "AdoptWhileOwned",
+                  "CountFollowsBit", "CountContinuity", "FreedNotAbandoned", "WonSegmentsSettled"}
 NO_STEPS = {"pc"}        # programs whose executions are too long to log every atomic step
 
 
@@ -40,16 +42,21 @@ def split_steps(path):
     the trace itself keeps everything else.  Returns the path of the step trace and the number of step events."""
     d, b = os.path.split(path)
     sp = os.path.join(d, "steps_" + b)
-    n = 0
-    with open(path) as f, open(path + ".api", "w") as fa, open(sp, "w") as fs:
+    ap = os.path.join(d, "asteps_" + b)       # the words of the abandon / adopt protocol (AbandonTrace.tla)
+    n = na = 0
+    with open(path) as f, open(path + ".api", "w") as fa, open(sp, "w") as fs, open(ap, "w") as fb:
         for l in f:
             if l.startswith('{"e":"step"'):
                 fs.write(l); n += 1
+            elif l.startswith('{"e":"astep"'):
+                fb.write(l); na += 1
             else:
                 fa.write(l)
                 if l.startswith(('{"e":"ret"', '{"e":"cfg"', '{"e":"reset"', '{"e":"crash"', '{"e":"end"')):
-                    fs.write(l)
+                    fs.write(l); fb.write(l)
     os.replace(path + ".api", path)
+    if na == 0:
+        os.remove(ap)
     return sp, n
 
 
@@ -136,12 +143,15 @@ def run_conc(prop, tier, seed, jobs_spec, own_guards, mc, builds=("rel", "dbg"),
     segcov = vlib.seg_pass(V, prop, [t[0] for t in traces], tag=prop + "conc")
     # the step events go to their own trace (StepTrace.tla), everything else to ApiTrace; long traces are split at reset lines so
     # that the TLC jobs stay balanced
-    pieces, spieces, nstep_events = [], [], 0
+    pieces, spieces, apieces, nstep_events = [], [], [], 0
     for tr in traces:
         sp, ns = split_steps(tr[0])
         nstep_events += ns
         if ns > 0:
             spieces += split_pieces(sp, tr, limit=20000)
+        ap = os.path.join(os.path.dirname(tr[0]), "asteps_" + os.path.basename(tr[0]))
+        if os.path.exists(ap):
+            apieces += split_pieces(ap, tr, limit=20000)
         pieces += split_pieces(tr[0], tr)
     t0 = time.time()
     stres = vlib.parallel([(lambda p=p: vlib.tlc_tv(p, module="StepTrace", cfg="StepTrace.cfg", timeout=2400, xmx="3g")) for p, _ in spieces], nproc=12)
@@ -167,6 +177,32 @@ def run_conc(prop, tier, seed, jobs_spec, own_guards, mc, builds=("rel", "dbg"),
                 sother[sig] = sother.get(sig, 0) + 1
     for sig, n in sorted(sother.items()):
         V.note("step-level guard (decisive for C02/C08/C09/C10) failed %d time(s): %s" % (n, sig))
+    # the abandon / adopt protocol at the level of its atomic operations (decisive for C09)
+    t0 = time.time()
+    abres = vlib.parallel([(lambda p=p: vlib.tlc_tv(p, module="AbandonTrace", cfg="AbandonTrace.cfg", timeout=2400, xmx="3g")) for p, _ in apieces], nproc=12)
+    nab = 0
+    for (p, tr), r in zip(apieces, abres):
+        if r["status"] in ("error", "timeout"):
+            raise vlib.InfraError("TLC abandonment-trace validation %s: %s" % (r["status"], r["out"][-3000:]))
+        with open(p) as f:
+            nab += sum(1 for l in f if l.startswith('{"e":"astep"'))
+        seen = set()
+        fails = list(r["guardfails"])
+        if r["status"] == "rejected" and not fails:
+            fails = [("Unexplained", (r["consumed"] or 0) + 1, "no action explains this event")]
+        for name, line, detail in fails:
+            sig = "%s:astep@%s" % (name, tr[3])
+            if sig in seen:
+                continue
+            seen.add(sig)
+            if prop == "C09":
+                keep = os.path.join(vlib.keepdir(prop), os.path.basename(p))
+                shutil.copyfile(p, keep)
+                V.violation(sig, "%s:%d" % (keep, line), "abandonment protocol guard %s failed (%s)" % (name, detail))
+            else:
+                V.note("abandonment protocol guard (decisive for C09) failed: %s" % sig)
+    if apieces:
+        log("  TLC validated %d abandonment-trace pieces (%d atomic steps) in %.1fs" % (len(apieces), nab, time.time() - t0))
     t0 = time.time()
     tvres = vlib.parallel([(lambda p=p: vlib.tlc_tv(p, timeout=2400, xmx="3g")) for p, _ in pieces], nproc=12)
     log("  TLC validated %d trace pieces in %.1fs" % (len(pieces), time.time() - t0))
@@ -208,7 +244,7 @@ def run_conc(prop, tier, seed, jobs_spec, own_guards, mc, builds=("rel", "dbg"),
            "traces_validated_against_impl": nexec, "trace_events_validated": consumed, "trace_events_total": events,
            "schedules_generated_by_tlc": len(scheds), "driver_processes": len(jobs), "builds": list(builds),
            "programs": sorted({t[2]["prog"] for t in traces}), "strategies": sorted({t[2]["strategy"] for t in traces}),
-           "decisive_guards": sorted(own_guards), "atomic_steps_validated": nstep_events, "step_guards": sorted(step_guards), "samples": (scheds[:2] + vlib.sample_lines(traces[0][0], 3) + steps[:2]), "exhaustive": False}
+           "decisive_guards": sorted(own_guards), "atomic_steps_validated": nstep_events, "abandonment_steps_validated": nab, "step_guards": sorted(step_guards), "samples": (scheds[:2] + vlib.sample_lines(traces[0][0], 3) + steps[:2]), "exhaustive": False}
     cov.update(segcov)
     if extra_cov:
         cov.update(extra_cov)
